@@ -1,4 +1,301 @@
+// Interface egress, IPv4 over Ethernet / raw IP: C10 (every transmitted frame is well-formed, fits the MTU,
+// has a legal source), C09 (a datagram is handed to the device exactly once, unmodified; back-pressure keeps queues).
+// Spliced into src/iface/interface/mod.rs (child of iface::interface).
+#[cfg(all(feature = "proto-ipv4", feature = "medium-ethernet", feature = "socket-tcp", feature = "socket-udp", feature = "socket-icmp"))]
 #[allow(dead_code, unused_imports, unused_variables, unused_mut)]
 mod v_iface_egress {
     use super::*;
+    use crate::iface::{SocketHandle, SocketStorage};
+    use crate::phy::ChecksumCapabilities;
+    use crate::socket::{icmp, tcp, udp};
+    use crate::verif_common::*;
+    use crate::verif_dev::{CapDev, CapTx, TxState};
+
+    const OWN: Ipv4Address = Ipv4Address::new(192, 168, 1, 1);
+    const PEER: Ipv4Address = Ipv4Address::new(192, 168, 1, 2);
+    const OWN_MAC: [u8; 6] = [0x02, 0, 0, 0, 0, 1];
+    const PEER_MAC: [u8; 6] = [0x02, 0, 0, 0, 0, 2];
+    const N: usize = 96;
+
+    fn get16(b: &[u8], o: usize) -> u16 {
+        ((b[o] as u16) << 8) | b[o + 1] as u16
+    }
+
+    /// RFC 1071 reference: big-endian 16-bit words, end-around carry; `extra` = pseudo-header words
+    fn ref_sum(data: &[u8], len: usize, extra: u32) -> u16 {
+        let mut acc: u32 = extra;
+        let mut i = 0;
+        while i < N {
+            if i + 1 < len {
+                acc += get16(data, i) as u32;
+            } else if i < len {
+                acc += (data[i] as u32) << 8;
+            }
+            i += 2;
+        }
+        acc = (acc & 0xffff) + (acc >> 16);
+        acc = (acc & 0xffff) + (acc >> 16);
+        acc as u16
+    }
+
+    fn pseudo4(src: Ipv4Address, dst: Ipv4Address, proto: u8, len: usize) -> u32 {
+        let s = src.octets();
+        let d = dst.octets();
+        (((s[0] as u32) << 8) | s[1] as u32) + (((s[2] as u32) << 8) | s[3] as u32)
+            + (((d[0] as u32) << 8) | d[1] as u32) + (((d[2] as u32) << 8) | d[3] as u32)
+            + proto as u32 + len as u32
+    }
+
+    macro_rules! env_eth {
+        ($iface:ident, $tx:ident, $mtu:ident) => {
+            let $mtu = any_le(1500);
+            kani::assume($mtu >= 576);
+            let mut dev = CapDev::<N>::new(Medium::Ethernet, $mtu + 14, ChecksumCapabilities::default());
+            let now: i64 = kani::any();
+            kani::assume(now >= 0 && now < (1i64 << 40));
+            let mut $iface = Interface::new(Config::new(HardwareAddress::Ethernet(EthernetAddress(OWN_MAC))), &mut dev, Instant::from_millis(now));
+            $iface.update_ip_addrs(|a| {
+                a.push(IpCidr::new(IpAddress::Ipv4(OWN), 24)).unwrap();
+            });
+            $iface.inner.neighbor_cache.fill(IpAddress::Ipv4(PEER), HardwareAddress::Ethernet(EthernetAddress(PEER_MAC)), Instant::from_millis(now));
+            let mut $tx = TxState::<N>::new();
+        };
+    }
+
+    /// Ethernet + IPv4 header obligations shared by all payload kinds; returns the IPv4 total length
+    fn check_eth_ipv4(f: &[u8], flen: usize, mtu: usize, proto: u8, hop: u8) -> usize {
+        crate::vassert!(flen >= 34 && flen <= mtu + 14, "prop:c10_frame_fits_mtu");
+        crate::vassert!(f[0..6] == PEER_MAC && f[6..12] == OWN_MAC, "prop:c10_ethernet_addresses");
+        crate::vassert!(get16(f, 12) == 0x0800, "prop:c10_ethertype_matches_ip_version");
+        let ip = &f[14..];
+        crate::vassert!(ip[0] == 0x45, "prop:c10_ipv4_version_and_header_length");
+        let total = get16(ip, 2) as usize;
+        crate::vassert!(total == flen - 14, "prop:c10_ipv4_total_length_matches_frame");
+        crate::vassert!(get16(ip, 6) & 0x3fff == 0, "prop:c10_unfragmented_packet_has_no_fragment_fields");
+        crate::vassert!(ip[8] == hop && ip[9] == proto, "prop:c10_ipv4_ttl_and_protocol");
+        crate::vassert!(ref_sum(ip, 20, 0) == 0xffff, "prop:c10_ipv4_header_checksum_valid");
+        crate::vassert!(ip[12..16] == OWN.octets() && ip[16..20] == PEER.octets(), "prop:c10_ipv4_addresses");
+        total
+    }
+
+    // @harness props=C10,C09 cfg=KI4 tier=q to=900 mem=8 unwind=50 opts=nomem covers=1 funcs=InterfaceInner::dispatch_ip;InterfaceInner::lookup_hardware_addr;Packet::emit_payload;wire::Ipv4Repr::emit;wire::UdpRepr::emit bounds=Ethernet,_MTU_576..1500,_tx_checksums_on;_UDP_with_any_ports,_hop_limit_and_4_payload_bytes;_neighbor_cached
+    #[kani::proof]
+    pub(crate) fn frame_wf_udp4() {
+        env_eth!(iface, tx, mtu);
+        let sport: u16 = kani::any();
+        let dport: u16 = kani::any();
+        let hop: u8 = kani::any();
+        let pl: [u8; 4] = kani::any();
+        let udp = UdpRepr { src_port: sport, dst_port: dport };
+        let ip = Ipv4Repr { src_addr: OWN, dst_addr: PEER, next_header: IpProtocol::Udp, payload_len: 8 + 4, hop_limit: hop };
+        let packet = Packet::new_ipv4(ip, IpPayload::Udp(udp, &pl[..]));
+        let r = iface.inner.dispatch_ip(CapTx { st: &mut tx }, PacketMeta::default(), packet, &mut iface.fragmenter);
+        crate::vassert!(r.is_ok() && tx.frames == 1, "prop:c09_datagram_handed_to_device_exactly_once");
+        let f = &tx.buf0;
+        let total = check_eth_ipv4(f, tx.len0, mtu, 17, hop);
+        crate::vassert!(total == 32, "prop:c10_ipv4_total_length_matches_payload");
+        let u = &f[34..];
+        crate::vassert!(get16(u, 0) == sport && get16(u, 2) == dport, "prop:c10_udp_ports");
+        crate::vassert!(get16(u, 4) == 12, "prop:c10_udp_length_field");
+        crate::vassert!(u[8] == pl[0] && u[9] == pl[1] && u[10] == pl[2] && u[11] == pl[3], "prop:c09_payload_unmodified");
+        crate::vassert!(get16(u, 6) != 0, "prop:c10_udp_checksum_present");
+        crate::vassert!(ref_sum(u, 12, pseudo4(OWN, PEER, 17, 12)) == 0xffff, "prop:c10_udp_checksum_valid");
+        kani::cover!(tx.frames == 1 && pl[0] == 0xaa, "frame captured");
+    }
+
+    // @harness props=C10 cfg=KI4 tier=q to=1200 mem=8 unwind=50 opts=nomem covers=2 funcs=InterfaceInner::dispatch_ip;Packet::emit_payload;wire::TcpRepr::emit;wire::TcpRepr::buffer_len bounds=Ethernet,_MTU_576..1500,_tx_checksums_on;_TCP_segment:_SYN_with_MSS+window_scale+SACK-permitted(+timestamp)_or_data_segment_with_timestamp/1_SACK_block,_payload_2_bytes,_all_field_values_symbolic
+    #[kani::proof]
+    pub(crate) fn frame_wf_tcp4() {
+        env_eth!(iface, tx, mtu);
+        let syn: bool = kani::any();
+        let ts: bool = kani::any();
+        let ws: u8 = kani::any();
+        kani::assume(ws <= 14);
+        let pl: [u8; 2] = kani::any();
+        let tcp = TcpRepr {
+            src_port: kani::any(), dst_port: kani::any(),
+            control: if syn { TcpControl::Syn } else { TcpControl::Psh },
+            seq_number: TcpSeqNumber(kani::any()),
+            ack_number: if syn { None } else { Some(TcpSeqNumber(kani::any())) },
+            window_len: kani::any(),
+            window_scale: if syn { Some(ws) } else { None },
+            max_seg_size: if syn { Some(kani::any()) } else { None },
+            sack_permitted: syn,
+            sack_ranges: [if syn { None } else { Some((kani::any(), kani::any())) }, None, None],
+            timestamp: if ts { Some(TcpTimestampRepr::new(kani::any(), kani::any())) } else { None },
+            payload: if syn { &[] } else { &pl[..] },
+        };
+        let tlen = tcp.buffer_len();
+        let ip = Ipv4Repr { src_addr: OWN, dst_addr: PEER, next_header: IpProtocol::Tcp, payload_len: tlen, hop_limit: 64 };
+        let packet = Packet::new_ipv4(ip, IpPayload::Tcp(tcp));
+        let r = iface.inner.dispatch_ip(CapTx { st: &mut tx }, PacketMeta::default(), packet, &mut iface.fragmenter);
+        crate::vassert!(r.is_ok() && tx.frames == 1, "prop:c10_segment_handed_to_device_exactly_once");
+        let f = &tx.buf0;
+        let total = check_eth_ipv4(f, tx.len0, mtu, 6, 64);
+        crate::vassert!(total == 20 + tlen, "prop:c10_ipv4_total_length_matches_payload");
+        let t = &f[34..];
+        let doff = ((t[12] >> 4) as usize) * 4;
+        let plen = if syn { 0 } else { 2 };
+        crate::vassert!(doff >= 20 && doff + plen == tlen, "prop:c10_tcp_data_offset_matches_segment");
+        // option list: every option well-formed, list ends exactly at the data offset (END / NOP padding only)
+        let mut o = 20usize;
+        let mut ok = true;
+        let mut ended = false;
+        let mut guard = 0;
+        while guard < 40 {
+            if o < doff && !ended {
+                let k = t[o];
+                if k == 0 {
+                    ended = true;
+                } else if k == 1 {
+                    o += 1;
+                } else {
+                    if o + 1 >= doff { ok = false; ended = true; } else {
+                        let l = t[o + 1] as usize;
+                        if l < 2 || o + l > doff { ok = false; ended = true; } else { o += l; }
+                    }
+                }
+            }
+            guard += 1;
+        }
+        crate::vassert!(ok, "prop:c10_tcp_options_well_formed_and_padded");
+        if ended {
+            // after END only zero padding
+            let j = any_lt(60);
+            if j >= o && j < doff {
+                crate::vassert!(t[j] == 0, "prop:c10_tcp_options_well_formed_and_padded");
+            }
+        }
+        crate::vassert!(ref_sum(t, tlen, pseudo4(OWN, PEER, 6, tlen)) == 0xffff, "prop:c10_tcp_checksum_valid");
+        if !syn {
+            crate::vassert!(t[doff] == pl[0] && t[doff + 1] == pl[1], "prop:c10_tcp_payload_unmodified");
+        }
+        kani::cover!(syn && ts, "SYN with all options");
+        kani::cover!(!syn && ts, "data segment with timestamp and SACK block");
+    }
+
+    // @harness props=C10,C03 cfg=KI4 tier=q to=900 mem=8 unwind=50 opts=nomem covers=1 funcs=InterfaceInner::dispatch_ip;Packet::emit_payload;wire::Icmpv4Repr::emit bounds=Ethernet,_MTU_576..1500,_tx_checksums_on;_ICMPv4_echo_reply_with_any_ident/seq_and_4_data_bytes
+    #[kani::proof]
+    pub(crate) fn frame_wf_icmp4() {
+        env_eth!(iface, tx, mtu);
+        let data: [u8; 4] = kani::any();
+        let ident: u16 = kani::any();
+        let seq_no: u16 = kani::any();
+        let icmp = Icmpv4Repr::EchoReply { ident, seq_no, data: &data[..] };
+        let ip = Ipv4Repr { src_addr: OWN, dst_addr: PEER, next_header: IpProtocol::Icmp, payload_len: icmp.buffer_len(), hop_limit: 64 };
+        let packet = Packet::new_ipv4(ip, IpPayload::Icmpv4(icmp));
+        let r = iface.inner.dispatch_ip(CapTx { st: &mut tx }, PacketMeta::default(), packet, &mut iface.fragmenter);
+        crate::vassert!(r.is_ok() && tx.frames == 1, "prop:c10_packet_handed_to_device_exactly_once");
+        let f = &tx.buf0;
+        let total = check_eth_ipv4(f, tx.len0, mtu, 1, 64);
+        crate::vassert!(total == 32, "prop:c10_ipv4_total_length_matches_payload");
+        let c = &f[34..];
+        crate::vassert!(c[0] == 0 && c[1] == 0 && get16(c, 4) == ident && get16(c, 6) == seq_no, "prop:c10_icmp_echo_fields");
+        crate::vassert!(ref_sum(c, 12, 0) == 0xffff, "prop:c10_icmp_checksum_valid");
+        kani::cover!(tx.frames == 1, "frame captured");
+    }
+
+    // ARP replies and requests: fixed fields, legal sender
+    // @harness props=C10,C16 cfg=KI4 tier=q to=900 mem=8 unwind=50 opts=nomem covers=2 funcs=InterfaceInner::process_arp;InterfaceInner::dispatch;InterfaceInner::dispatch_ethernet;wire::ArpRepr::emit bounds=Ethernet;_arbitrary_28-byte_ARP_packet_in_an_Ethernet_frame_for_us;_reply_captured
+    #[kani::proof]
+    pub(crate) fn frame_wf_arp_reply() {
+        env_eth!(iface, tx, mtu);
+        let mut fr = [0u8; 42];
+        let arp: [u8; 28] = kani::any();
+        let mut i = 0;
+        while i < 6 { fr[i] = OWN_MAC[i]; fr[6 + i] = PEER_MAC[i]; i += 1; }
+        fr[12] = 0x08;
+        fr[13] = 0x06;
+        let mut i = 0;
+        while i < 28 { fr[14 + i] = arp[i]; i += 1; }
+        let eth = EthernetFrame::new_checked(&fr[..]).unwrap();
+        let now = iface.inner.now;
+        let reply = iface.inner.process_arp(now, &eth);
+        let mut sent = false;
+        if let Some(p) = reply {
+            let r = iface.inner.dispatch(CapTx { st: &mut tx }, p, &mut iface.fragmenter);
+            crate::vassert!(r.is_ok() && tx.frames == 1 && tx.len0 == 42, "prop:c10_arp_frame_length");
+            let f = &tx.buf0;
+            crate::vassert!(f[6..12] == OWN_MAC && get16(f, 12) == 0x0806, "prop:c10_ethernet_addresses");
+            let a = &f[14..];
+            crate::vassert!(get16(a, 0) == 1 && get16(a, 2) == 0x0800 && a[4] == 6 && a[5] == 4 && get16(a, 6) == 2, "prop:c10_arp_fixed_fields");
+            crate::vassert!(a[8..14] == OWN_MAC && a[14..18] == OWN.octets(), "prop:c10_arp_sender_is_own_unicast_address");
+            // the reply goes to the requester, whose addresses are unicast
+            crate::vassert!(f[0..6] == arp[8..14] && a[18..24] == arp[8..14] && a[24..28] == arp[14..18], "prop:c10_arp_reply_targets_requester");
+            crate::vassert!(arp[8] & 1 == 0, "prop:c11_no_reply_to_non_unicast_source");
+            sent = true;
+        }
+        kani::cover!(sent, "ARP reply emitted");
+        kani::cover!(!sent && get16(&arp, 6) == 1, "ARP request ignored");
+    }
+
+    // socket egress through a device: exactly-once on success, queue untouched under back-pressure, legal source
+    // @harness props=C09,C10 cfg=KI4 tier=q to=1200 mem=10 unwind=50 opts=nomem covers=3 funcs=Interface::socket_egress;udp::Socket::dispatch;InterfaceInner::dispatch_ip;InterfaceInner::get_source_address bounds=Ethernet;_one_UDP_socket_with_one_queued_4-byte_datagram_to_a_cached_on-link_peer;_device_accepts_or_refuses_(symbolic);_second_egress_pass
+    #[kani::proof]
+    pub(crate) fn udp_egress_exactly_once() {
+        let mtu = 1500usize;
+        let mut dev = CapDev::<N>::new(Medium::Ethernet, mtu + 14, ChecksumCapabilities::ignored());
+        let now: i64 = kani::any();
+        kani::assume(now >= 0 && now < (1i64 << 40));
+        let mut iface = Interface::new(Config::new(HardwareAddress::Ethernet(EthernetAddress(OWN_MAC))), &mut dev, Instant::from_millis(now));
+        iface.update_ip_addrs(|a| {
+            a.push(IpCidr::new(IpAddress::Ipv4(OWN), 24)).unwrap();
+        });
+        iface.inner.neighbor_cache.fill(IpAddress::Ipv4(PEER), HardwareAddress::Ethernet(EthernetAddress(PEER_MAC)), Instant::from_millis(now));
+        let mut urm = [udp::PacketMetadata::EMPTY; 2];
+        let mut urp = [0u8; 8];
+        let mut utm = [udp::PacketMetadata::EMPTY; 2];
+        let mut utp = [0u8; 8];
+        let mut usock = udp::Socket::new(udp::PacketBuffer::new(&mut urm[..], &mut urp[..]), udp::PacketBuffer::new(&mut utm[..], &mut utp[..]));
+        let lport: u16 = kani::any();
+        kani::assume(lport != 0);
+        usock.bind(lport).unwrap();
+        let pl: [u8; 4] = kani::any();
+        let dport: u16 = kani::any();
+        kani::assume(dport != 0);
+        usock.send_slice(&pl[..], (IpAddress::Ipv4(PEER), dport)).unwrap();
+        let mut storage = [SocketStorage::EMPTY];
+        let mut sockets = SocketSet::new(&mut storage[..]);
+        let uh = sockets.add(usock);
+        dev.tx_ok = kani::any();
+        let accepted = dev.tx_ok;
+        let _ = iface.socket_egress(&mut dev, &mut sockets);
+        if accepted {
+            crate::vassert!(dev.tx.frames == 1, "prop:c09_datagram_handed_to_device_exactly_once");
+            crate::vassert!(sockets.get::<udp::Socket>(uh).send_queue() == 0, "prop:c09_transmitted_datagram_leaves_queue");
+            let f = &dev.tx.buf0;
+            crate::vassert!(dev.tx.len0 == 14 + 20 + 8 + 4, "prop:c09_frame_carries_whole_datagram");
+            crate::vassert!(f[0..6] == PEER_MAC, "prop:c16_frame_sent_to_learned_hardware_address");
+            crate::vassert!(f[26..30] == OWN.octets() && f[30..34] == PEER.octets(), "prop:c10_source_is_own_unicast_address");
+            crate::vassert!(get16(f, 34) == lport && get16(f, 36) == dport, "prop:c09_addressing_preserved");
+            crate::vassert!(f[42] == pl[0] && f[43] == pl[1] && f[44] == pl[2] && f[45] == pl[3], "prop:c09_payload_unmodified");
+        } else {
+            crate::vassert!(dev.tx.frames == 0, "prop:c09_nothing_sent_when_device_refuses");
+            crate::vassert!(sockets.get::<udp::Socket>(uh).send_queue() == 1, "prop:c09_backpressure_keeps_datagram_queued");
+        }
+        // a second pass on an accepting device: still exactly once overall
+        dev.tx_ok = true;
+        let _ = iface.socket_egress(&mut dev, &mut sockets);
+        crate::vassert!(dev.tx.frames == 1, "prop:c09_datagram_handed_to_device_exactly_once");
+        crate::vassert!(sockets.get::<udp::Socket>(uh).send_queue() == 0, "prop:c09_transmitted_datagram_leaves_queue");
+        if !accepted {
+            let f = &dev.tx.buf0;
+            crate::vassert!(f[42] == pl[0] && f[43] == pl[1] && f[44] == pl[2] && f[45] == pl[3], "prop:c09_payload_unmodified");
+        }
+        kani::cover!(accepted, "sent in the first pass");
+        kani::cover!(!accepted, "deferred by back-pressure, sent in the second pass");
+        kani::cover!(dev.tx.frames == 1 && pl[3] == 7, "frame captured");
+    }
+
+    // @harness props=C10 kind=mustfail cfg=KI4 tier=q to=900 mem=8 unwind=50 opts=nomem
+    #[kani::proof]
+    pub(crate) fn iface_egress_must_fail() {
+        env_eth!(iface, tx, mtu);
+        let pl: [u8; 4] = kani::any();
+        let udp = UdpRepr { src_port: 1, dst_port: 2 };
+        let ip = Ipv4Repr { src_addr: OWN, dst_addr: PEER, next_header: IpProtocol::Udp, payload_len: 12, hop_limit: 64 };
+        let packet = Packet::new_ipv4(ip, IpPayload::Udp(udp, &pl[..]));
+        let _ = iface.inner.dispatch_ip(CapTx { st: &mut tx }, PacketMeta::default(), packet, &mut iface.fragmenter);
+        crate::vassert!(tx.buf0[42] == 0, "prop:deliberately_false_payload_is_zero");
+    }
 }
